@@ -74,6 +74,9 @@ def judge_propagation(case):
     dt = S.dt
     rng = rng_of(case["seed"] + 1)
     nc = case["ncol"]
+    if case["seed"] % 5 == 0 and H.size <= 64:
+        nc = H.size  # as many factor columns as Hankel entries: the factor is a square matrix
+        j.tag("square-factor")
     D = rng.normal(size=(nc,) + H.shape)
     D = D / np.linalg.norm(D.reshape(nc, -1), axis=1)[:, None, None] * np.linalg.norm(H) * case["tscale"]
     T = np.stack([d.flatten(order="F") for d in D], axis=1)  # column-stacked vec
